@@ -8,6 +8,7 @@ use std::collections::HashSet;
 use std::sync::Arc;
 verus! {
 
+// [[tour-core
 // ---------------------------------------------------------------- environment (assumed, not verified)
 pub axiom fn ax_job_key_model() ensures vstd::std_specs::hash::obeys_key_model::<Job>();
 
@@ -339,6 +340,7 @@ pub proof fn lemma_jobs_nonempty(s: Seq<Activity>, js: Set<Job>, closed: bool)
     }
 }
 
+// ]]tour-core
 // vacuity guard: must be REJECTED by Verus (shows wf() is satisfiable-dependent reasoning is not vacuous)
 pub proof fn vacuity_wf_not_contradictory(t: Tour)
     requires t.wf(), t.closed(), t.acts().len() >= 3,
